@@ -186,6 +186,7 @@ type gatedEngine struct {
 	retired  map[*h.Cluster]bool
 	hangSigs map[string]bool
 	skipped  atomic.Int64
+	stopped  bool
 }
 
 // cluster returns the shared cluster of size n (creating it) and takes a reference.
@@ -214,7 +215,41 @@ func (g *gatedEngine) clusterKey(key, n int) (*h.Cluster, error) {
 	c.SetBehaviour(g.dir.Behaviour)
 	g.clusters[key] = c
 	g.refs[c] = 1
+	if key < 100 {
+		g.background(c)
+	}
 	return c, nil
+}
+
+// background keeps single-node traffic (RPC, unicast) flowing on the shared cluster while gated calls run,
+// so that replies to other calls are in flight on the same nodes all the time.
+func (g *gatedEngine) background(c *h.Cluster) {
+	go func() {
+		rng := rand.New(rand.NewSource(int64(len(c.IDs))))
+		for k := 0; ; k++ {
+			g.mu.Lock()
+			dead := g.retired[c] || g.stopped
+			g.mu.Unlock()
+			if dead {
+				return
+			}
+			i := rng.Intn(len(c.IDs))
+			tok := h.NewToken()
+			req := &puppet.Req{Call: tok, Seq: tok, Kind: 98}
+			ctx, cancel := context.WithTimeout(context.Background(), time.Second)
+			if k%3 == 0 {
+				c.Node(i).Uni(context.Background(), req, gorums.WithNoSendWaiting())
+			} else {
+				rep, err := c.Node(i).RPC(ctx, req)
+				g.e.R.Count("background_rpcs", 1)
+				if err == nil && (rep.GetCall() != tok || rep.GetNode() != c.IDs[i]) {
+					g.viol("C01", "background-rpc-foreign-reply", fmt.Sprintf("a unary RPC running beside the quorum calls returned the reply to call %d from node %d", rep.GetCall(), rep.GetNode()), nil)
+				}
+			}
+			cancel()
+			time.Sleep(300 * time.Microsecond)
+		}
+	}()
 }
 
 func (g *gatedEngine) cluster(n int) (*h.Cluster, error) {
@@ -259,6 +294,7 @@ func (g *gatedEngine) discard(n int, c *h.Cluster) {
 
 func (g *gatedEngine) closeAll() {
 	g.mu.Lock()
+	g.stopped = true
 	cs := g.clusters
 	g.clusters = map[int]*h.Cluster{}
 	g.mu.Unlock()
@@ -414,6 +450,18 @@ func (g *gatedEngine) run(sc GScenario, slot int) {
 		select {
 		case <-p.Entered():
 		case <-time.After(e.W):
+			if g.rcvErrs(cl) != rcvErr0 {
+				// the stream was reset (by the context end of the previous case on this private cluster) after this call's request
+				// was written: gorums reports a connection error for the node, which is outside this engine's script
+				R.Count("disturbed_by_stream_reset", 1)
+				ctx.end(context.Canceled)
+				for _, p := range plans {
+					if p != nil {
+						p.Open()
+					}
+				}
+				return
+			}
 			R.Inconc(fmt.Sprintf("request of call %d never reached server %d (foreign: delivery); parked library goroutines: %v", token, i, h.LibSummary(h.Dump(), 0)))
 			ctx.end(context.Canceled)
 			g.discard(sc.N, cl)
